@@ -106,6 +106,7 @@ struct AOp {
   bool alloc;
   uint32_t arg;
   bool value_only;
+  uint32_t churn = 0;  // > 0: free held[arg] and re-allocate / free it until `churn` pushes happened (unscheduled)
 };
 
 template <class T>
@@ -152,6 +153,34 @@ struct AllocWorld {
     OpScope sc;
     if (value_only) alloc.deallocate(VV((typename VV::VersionAndValue)v));  // doc: "You can also pass just the id value"
     else alloc.deallocate(id);
+  }
+
+  // A very long history between two schedule points: the holder frees `id`, then re-allocates and frees
+  // whatever is on top (normally the same value) until `pushes` deallocations happened; the value ends
+  // up free. Runs unscheduled (dsched quiet mode) while every other thread is parked inside a schedule
+  // point, i.e. possibly between the two halves of its own allocate(): the 2^16 / 2^17-push ABA window.
+  // Parked threads hold no engine state that quiet_end() drops (they wait before or after their atomic
+  // operation, never inside it); the happens-before bookkeeping of the resources cannot follow the
+  // unscheduled pushes, so it restarts afterwards.
+  void churn(int me, VV id, uint32_t pushes) {
+    T v = id.value;
+    if (owner[v] != me) dsched::fail("harness", "T%d churns %u it does not hold", me, (unsigned)v);
+    if (res[v].get("resource[id]") != token[v])
+      dsched::fail("two-owners", "resource of id %u held by T%d was overwritten: somebody else owned the id", (unsigned)v, me);
+    owner[v] = -1;
+    OpScope sc;
+    int bad = -1;
+    dsched::quiet_begin();
+    alloc.deallocate(id);
+    for (uint32_t i = 1; i < pushes; i++) {
+      VV x = alloc.allocate();
+      if ((int)x.value >= MAXV || owner[x.value] != -1) { bad = (int)x.value; break; }
+      alloc.deallocate(x);
+    }
+    dsched::quiet_end();
+    for (auto& r : res) dsched::track_reset(&r.ts);
+    if (bad >= 0) dsched::fail("two-owners", "allocate (in a long free/allocate history of T%d) returned value %d which is held or out of range", me, bad);
+    hist = hist * 1000003 + pushes;
   }
 
   // quiescent check-point; `final` drains the free list completely
@@ -222,13 +251,27 @@ void run_allocator(Chooser& c, const char* tname) {
   static const int bases[] = {0, 1, 2, 3, 4, 6, 126, 127};
   int base = c.pick(bases);
   int nphase = c.range(1, 2);
+  // "all allocate/free histories": the 32-bit allocator must survive histories longer than 2^16 / 2^17
+  // deallocations (the 16-bit one legitimately wraps there, nothing is demanded of it)
+  bool wrap = sizeof(T) == 4 && c.chance(1, 6);
+  bool aba_template = wrap && c.flip();
+  uint32_t pre_churn = 0;
+  if (wrap) {
+    if (base < 3 || base > 6) base = 3;
+    static const uint32_t around[] = {0, 65536, 131072};
+    uint32_t centre = c.pick(around);
+    pre_churn = centre == 0 ? 0 : centre - c.below(9);
+    dsched::label("alloc_wrap_case");
+  }
   descf("IdAllocator<%s> base=%d", tname, base);
+  if (wrap) descf(" pre_churn=%u%s", pre_churn, aba_template ? " aba-template" : "");
 
   // set-up: thread 0 allocates `base` ids, frees some of them again in a chosen order
   std::vector<VV> pool;
   dsched::quiet_begin();
   for (int i = 0; i < base; i++) pool.push_back(A.do_alloc(0, true));
   int nfree0 = base == 0 ? 0 : c.range(0, base < 4 ? base : 4);
+  if (wrap && nfree0 < 2) nfree0 = 2;
   descf(" prefree=[");
   for (int i = 0; i < nfree0; i++) {
     size_t k = pool.size() - 1 - c.below((uint32_t)(pool.size() < 6 ? pool.size() : 6));
@@ -237,6 +280,15 @@ void run_allocator(Chooser& c, const char* tname) {
     pool.erase(pool.begin() + (long)k);
   }
   descf("]");
+  if (pre_churn > 0) {
+    // bring the free-list version to just below the boundary: the concurrent phase crosses it
+    VV x = A.alloc.allocate();
+    for (uint32_t i = 1; i < pre_churn; i++) {
+      A.alloc.deallocate(x);
+      x = A.alloc.allocate();
+    }
+    A.alloc.deallocate(x);
+  }
   dsched::quiet_end();
   W->inflight = 0;
   W->overlapped = false;
@@ -255,17 +307,37 @@ void run_allocator(Chooser& c, const char* tname) {
     descf(" | phase%d:", ph);
     for (int t = 0; t < nthreads; t++) {
       int give = c.range(0, 2);
+      // the directed shape: T1 = [A ...], T2 = [A, A, churn(first)] on a free list of >= 2 values; T1 paused
+      // between its head load and its CAS while T2 runs is the pop || pop-pop-(k * 2^16 pushes) ABA
+      bool tmpl = aba_template && ph == 0 && t < 2;
+      if (tmpl) give = 0;
       phases[(size_t)ph].give.push_back(give);
       int nops = c.range(1, 6);
       descf(" T%d(h%d)[", t + 1, give);
+      if (tmpl) {
+        static const uint32_t ns[] = {65536, 65536, 131072, 65536};
+        std::vector<AOp>& pl = phases[(size_t)ph].plans[(size_t)t];
+        pl.push_back(AOp{true, 0, false, 0});
+        descf("A");
+        if (t == 1) {
+          pl.push_back(AOp{true, 0, false, 0});
+          pl.push_back(AOp{false, 0, false, c.pick(ns)});
+          descf("AW0:%u", pl.back().churn);
+        }
+      }
       for (int i = 0; i < nops; i++) {
         AOp op;
         op.alloc = !c.chance(9, 20);
         op.arg = c.below(8);
         op.value_only = c.chance(1, 3);
+        if (wrap && !op.alloc && c.chance(1, 4)) {
+          static const uint32_t ns[] = {65536, 65535, 131072, 65537};
+          op.churn = c.pick(ns);
+        }
         phases[(size_t)ph].plans[(size_t)t].push_back(op);
-        descf("%s", op.alloc ? "A" : (op.value_only ? "f" : "F"));
+        descf("%s", op.alloc ? "A" : op.churn ? "W" : (op.value_only ? "f" : "F"));
         if (!op.alloc) descf("%u", op.arg);
+        if (op.churn) descf(":%u", op.churn);
       }
       descf("]");
     }
@@ -302,8 +374,13 @@ void run_allocator(Chooser& c, const char* tname) {
             size_t k = op.arg % mine.size();
             VV id = mine[k];
             mine.erase(mine.begin() + (long)k);
-            A.do_free(me, id, op.value_only, false);
-            dsched::label("op_deallocate");
+            if (op.churn) {
+              A.churn(me, id, op.churn);
+              dsched::label("op_churn_2^16");
+            } else {
+              A.do_free(me, id, op.value_only, false);
+              dsched::label("op_deallocate");
+            }
           }
           dsched::point();
         }
@@ -634,8 +711,39 @@ void run_box(Chooser& c) {
     static const int pre_lens[] = {0, 1, 2, 3, 4, 6, 8, 12, 50, 120};
     int pre = c.pick(pre_lens);
     int width = c.range(1, 3);
-    descf("DepositBox pre=%d width=%d", pre, width);
+    // "even after the slot has been reused any number of times": in a share of the cases one slot goes
+    // through N emplace/take/release rounds first, N around 2^16 and 2^17 (where a truncated version
+    // counter would repeat) and just below, so that the concurrent phase itself crosses the boundary
+    uint32_t long_rounds = 0;
+    if (c.chance(1, 8)) {
+      static const uint32_t centre[] = {65536, 65536, 65536, 131072};
+      uint32_t ce = c.pick(centre);
+      long_rounds = c.flip() ? ce - c.below(9) : ce - 6 + c.below(11);
+      if (pre > 12) pre = (int)c.below(7);
+      dsched::label("box_2^16_prehistory");
+    }
+    descf("DepositBox long=%u pre=%d width=%d", long_rounds, pre, width);
     dsched::quiet_begin();
+    if (long_rounds > 0) {
+      BoxWorld::VV first{};
+      for (uint32_t i = 0; i < long_rounds; i++) {
+        uint64_t x = B.next_x++;
+        BoxWorld::VV id = B.box.emplace(x);
+        if ((int)id.value >= BoxWorld::MAXS) dsched::fail("id-range", "emplace returned slot %u", id.value);
+        if (i == 0) first = id;
+        // the very first, long dead receipt is presented in every round
+        else if (B.box.take_released(first) != nullptr)
+          dsched::fail("stale-id", "round %u: the receipt of round 0 (slot %u version %u) whose item was taken long ago matched again (new receipt: slot %u version %u)",
+                       i, first.value, first.version, id.value, id.version);
+        Item* p = B.box.take_released(id);
+        if (p == nullptr || p->x != x)
+          dsched::fail("one-taker", "round %u: take of the untouched deposit (slot %u version %u) obtained %s", i, id.value, id.version,
+                       p ? "another item" : "nothing");
+        B.box.finish_released(id);
+        // early receipts (and the latest ones) stay around as stale ids for the concurrent phase and the final sweep
+        if (i < 40 || i + 4 >= long_rounds) B.stale.push_back(id);
+      }
+    }
     {
       std::vector<size_t> out;
       for (int i = 0; i < pre; i++) {
